@@ -225,7 +225,9 @@ class CallMixin(object):
         if c is not None and not c.inline_ and not force_inline:
             return self.apply_contract(c, fv, args, kwargs)
         if c is None and not is_local and not force_inline:
-            raise OutOfSubset("call to %s, which has no contract" % fv.qualname)
+            # a repository helper without a contract (e.g. extracted by a refactoring): its real body is
+            # executed in place, which is sound; it is listed in the evidence
+            self.note_assumption("inlined (no contract of its own): %s" % fv.qualname)
         return self.inline_call(fv, args, kwargs, c, cm_body)
 
     def inline_call(self, fv, args, kwargs, c=None, cm_body=None):
@@ -288,6 +290,13 @@ class CallMixin(object):
                 inst.fields[fld] = fresh_of_type(self, t, "new.%s" % fld)
         if c.yields_type_ is not None:
             return self.contract_generator(c, env, callee)
+        if c.model_ is not None:
+            result = c.model_(self, env)
+            if callee.endswith("PyramidIO.read_image"):
+                if not hasattr(self.path, "read_results"):
+                    self.path.read_results = []
+                self.path.read_results.append(_snap(result, {}))    # as read, before the caller modifies it
+            return result
         result = None
         if c.returns_ is not None:
             result = fresh_of_type(self, c.returns_, "ret_" + short.split(".")[-1])
@@ -647,6 +656,10 @@ class CallMixin(object):
             start = args[1] if len(args) > 1 else 0
             return PyList([(start + k, v) for k, v in enumerate(items)])
         if name == "zip":
+            if any(isinstance(a, Opaque) for a in args):
+                z = Opaque("zip", fresh_name("zip"))
+                z.attrs["_g_args"] = tuple(args)
+                return z
             if any(isinstance(a, (SymSeq, GenVal)) for a in args):
                 return self.sym_zip(args)
             lists = [self.iter_concrete(a) for a in args]
